@@ -1000,6 +1000,19 @@ func icptJSONUnmarshal(caller *frame, fn *ssa.Function, args []value) value {
 	if target.t == nil {
 		return i.newError("json: Unmarshal(nil)")
 	}
+	if raw, ok := args[0].([]value); ok && len(raw) == 1 {
+		if blob, ok := raw[0].(jsonBlob); ok {
+			// structural model of the codec for API objects (jsonmodel.go)
+			pt, ok := target.t.Underlying().(*types.Pointer)
+			cell, _ := target.v.(*value)
+			if !ok || cell == nil {
+				return i.newError("json: Unmarshal(non-pointer or nil)")
+			}
+			res := i.jsonTranscode(blob.t, blob.v, pt.Elem())
+			store(pt.Elem(), cell, res)
+			return iface{}
+		}
+	}
 	if target.t.String() == "*[]int32" {
 		// the delete-slots codec: symbolic payloads are tagged slices produced by
 		// sym.SlotsJSON; concrete strings go to the real decoder.
@@ -1046,6 +1059,9 @@ func icptJSONMarshal(caller *frame, fn *ssa.Function, args []value) value {
 		if anySym {
 			return tuple{[]value{symSlotsPayload{append([]value(nil), xs...)}}, iface{}}
 		}
+	}
+	if v.t != nil && isAPIObject(v.t) {
+		return tuple{[]value{jsonBlob{v.t, i.deepCopyValue(v.t, v.v)}}, iface{}}
 	}
 	var b strings.Builder
 	if err := i.jsonEncode(caller, &b, v.t, v.v); err != "" {
